@@ -6,16 +6,16 @@ def loop(expr):
     zip_iter_snd(it.snapshot@).remaining().len() == n,
     forall|i: int| 0 <= i < n ==> (it.snapshot@.remaining()[i]).1 == #[trigger] zip_iter_snd(it.snapshot@).remaining()[i],
     forall|i: int| 0 <= i < n ==> *(#[trigger] it.snapshot@.remaining()[i]).0 == st[i] && *(it.snapshot@.remaining()[i]).1 == c0[i],
-    forall|i: int| 0 <= i < it.index@ ==> *final((#[trigger] it.snapshot@.remaining()[i]).1) == %(e)s,
+    forall|i: int| 0 <= i < it.index@ ==> rv(*final((#[trigger] it.snapshot@.remaining()[i]).1)) == %(e)s,
 ensures
-    forall|i: int| 0 <= i < n ==> *final(#[trigger] zip_iter_snd(it.snapshot@).remaining()[i]) == %(e)s,""" % dict(e=expr),
-                body_start="broadcast use fl;\nproof { ax_obeys(); }")
+    forall|i: int| 0 <= i < n ==> rv(*final(#[trigger] zip_iter_snd(it.snapshot@).remaining()[i])) == %(e)s,""" % dict(e=expr),
+                body_start="broadcast use fl; broadcast use ideal;\nproof { ax_obeys(); ax_rv_lits(); }")
 UNIT = dict(
     id="c08_update_cum_strat",
-    prelude=["floats.rs"],
-    canary_use="broadcast use fl; ax_obeys();",
+    prelude=["floats.rs", "ideal.rs"],
+    canary_use="broadcast use fl; broadcast use ideal; ax_obeys(); ax_rv_lits();",
     assumptions=[
-        "uninterpreted floats (operand order as written)",
+        "idealised-real float mode (so that harmless reorderings of operands do not disturb the proof)",
         "struct invariant strat.len() == cum_strat.len() (established by RegretInfoset::new: Kani harness c05_regret_infoset_new; zip would silently truncate otherwise)",
     ],
     items=[
@@ -34,13 +34,13 @@ pub trait ExternalInfo {
     final(self).cum_strat@.len() == old(self).cum_strat@.len(),
     // iteration t contributes the current strategy weighted by the player's own reach
     old(self).strat@.len() == old(self).cum_strat@.len() ==> forall|i: int| 0 <= i < old(self).cum_strat@.len() ==>
-        #[trigger] final(self).cum_strat@[i] == fadd(old(self).cum_strat@[i], fmul(prob, old(self).strat@[i])), // @ob C08.V.update_cum_strat.vanilla""",
-                 entry="""broadcast use fl;
-proof { ax_obeys(); assume(self.strat@.len() == self.cum_strat@.len()); }
+        rv(#[trigger] final(self).cum_strat@[i]) == rv(old(self).cum_strat@[i]) + rv(prob) * rv(old(self).strat@[i]), // @ob C08.V.update_cum_strat.vanilla""",
+                 entry="""broadcast use fl; broadcast use ideal;
+proof { ax_obeys(); ax_rv_lits(); assume(self.strat@.len() == self.cum_strat@.len()); }
 let ghost n = self.cum_strat@.len();
 let ghost st = self.strat@;
 let ghost c0 = self.cum_strat@;""",
-                 loops={0: loop("fadd(c0[i], fmul(prob, st[i]))")}),
+                 loops={0: loop("rv(c0[i]) + rv(prob) * rv(st[i])")}),
         ]),
         dict(file="src/solve/external.rs", path="struct CachedInfoset", pub_fields=True),
         dict(file="src/solve/external.rs", path="impl ExternalInfo for CachedInfoset", members=[
@@ -51,13 +51,13 @@ let ghost c0 = self.cum_strat@;""",
     final(self).reg.cum_strat@.len() == old(self).reg.cum_strat@.len(),
     // external sampling: the sampled player's current strategy is added unweighted
     old(self).reg.strat@.len() == old(self).reg.cum_strat@.len() ==> forall|i: int| 0 <= i < old(self).reg.cum_strat@.len() ==>
-        #[trigger] final(self).reg.cum_strat@[i] == fadd(old(self).reg.cum_strat@[i], old(self).reg.strat@[i]), // @ob C08.V.update_cum_strat.external""",
-                 entry="""broadcast use fl;
-proof { ax_obeys(); assume(self.reg.strat@.len() == self.reg.cum_strat@.len()); }
+        rv(#[trigger] final(self).reg.cum_strat@[i]) == rv(old(self).reg.cum_strat@[i]) + rv(old(self).reg.strat@[i]), // @ob C08.V.update_cum_strat.external""",
+                 entry="""broadcast use fl; broadcast use ideal;
+proof { ax_obeys(); ax_rv_lits(); assume(self.reg.strat@.len() == self.reg.cum_strat@.len()); }
 let ghost n = self.reg.cum_strat@.len();
 let ghost st = self.reg.strat@;
 let ghost c0 = self.reg.cum_strat@;""",
-                 loops={0: loop("fadd(c0[i], st[i])")}),
+                 loops={0: loop("rv(c0[i]) + rv(st[i])")}),
         ]),
     ],
 )
